@@ -54,7 +54,8 @@ TRIAGED_UNPROVEN = {
         "search back-ends contain their own handlers (greedy_standalone, search_optimal); asm_from_ids/BlockOptimizer "
         "have no witnessed failure on front-end generated specifications",
     "optimize_asm_block_asm_format->rebuild_optimized_asm_block":
-        "asserts in the rebuild are consistency checks between the block and its own sub-block list; no failing input found",
+        "asserts in the rebuild are consistency checks between the block and its own sub-block list; the one failing input found "
+        "(a block starting with ASSIGNIMMUTABLE, F30) is repaired, and the rebuild is evaluated without a raise on the block family of C09.f / C14.h",
 }
 
 
